@@ -463,6 +463,11 @@ def _expand_expr(fi: FuncInfo, anchor: ast.AST, expr: ast.AST, depth: int, prog:
                 d = definition(n.id)
                 if d is not None:
                     return Sub(self.left - 1).visit(_copy.deepcopy(d))
+                if prog is not None and not any(isinstance(x, ast.Name) and x.id == n.id and isinstance(x.ctx, ast.Store) for x in ast.walk(fi.node)):
+                    # a constant table of the package (a module-level tuple / set of literals): its display
+                    tab = prog.resolve_table2(fi.module, n.id)
+                    if tab is not None and isinstance(tab[0], (ast.Tuple, ast.Set)) and all(isinstance(x, ast.Constant) for x in tab[0].elts):
+                        return _copy.deepcopy(tab[0])
             return n
 
         def visit_Call(self, c: ast.Call) -> ast.AST:
@@ -489,8 +494,28 @@ def _expand_expr(fi: FuncInfo, anchor: ast.AST, expr: ast.AST, depth: int, prog:
             ph = placeholders.setdefault(norm(c), "_H%d" % (len(placeholders) + 1))
             return ast.Name(id=ph, ctx=ast.Load())
 
+        def visit_IfExp(self, n: ast.IfExp) -> ast.AST:
+            self.generic_visit(n)
+            # a parameter with a default applied (`p if isinstance(p, T) else D`, `D if p is None else p`) is still
+            # that parameter - the reviewed form reads `if p is None: p = D` the same way
+            for keep, other in ((n.body, n.orelse), (n.orelse, n.body)):
+                if isinstance(keep, ast.Name) and keep.id in fi.params and not any(isinstance(x, ast.Name) and x.id == keep.id for x in ast.walk(other)) and any(isinstance(x, ast.Name) and x.id == keep.id for x in ast.walk(n.test)):
+                    return keep
+            return n
+
         def visit_Attribute(self, n: ast.Attribute) -> ast.AST:
             self.generic_visit(n)
+            if prog is not None and isinstance(n.value, ast.Call) and isinstance(n.value.func, ast.Name) and n.value.func.id in prog.classes:
+                # a field of a record built on the spot: the argument given for it
+                ci = prog.classes[n.value.func.id]
+                names = [f_ for f_, _d in ci.fields]
+                if n.attr in names and prog.resolve_method(ci.name, "__init__") is None and not any(isinstance(a_, ast.Starred) for a_ in n.value.args):
+                    for k in n.value.keywords:
+                        if k.arg == n.attr:
+                            return k.value
+                    i = names.index(n.attr)
+                    if i < len(n.value.args):
+                        return n.value.args[i]
             if isinstance(n.value, ast.Name) and n.value.id.startswith("_H") and n.value.id in placeholders.values():
                 ph = placeholders.setdefault(norm(n), "_H%d" % (len(placeholders) + 1))
                 return ast.Name(id=ph, ctx=ast.Load())
@@ -527,7 +552,16 @@ def _finish_expanded(fi: FuncInfo, tree: ast.AST, placeholders: Dict[str, str]) 
             l_, r_ = n.left, n.comparators[0]
             if not isinstance(r_, ast.Constant) and norm(l_) > norm(r_):
                 n.left, n.comparators = r_, [l_]
-    return norm(tree)
+        # `x in {"=", "=="}` / `("==", "=")` / `["=", "=="]` / `frozenset({..})`: membership in a set of literals,
+        # however the set is written and in whatever order
+        if isinstance(n, ast.Compare) and len(n.ops) == 1 and isinstance(n.ops[0], (ast.In, ast.NotIn)):
+            c_ = n.comparators[0]
+            if isinstance(c_, ast.Call) and isinstance(c_.func, ast.Name) and c_.func.id in ("frozenset", "set", "tuple", "list") and len(c_.args) == 1 and not c_.keywords:
+                c_ = c_.args[0]
+            if isinstance(c_, (ast.Set, ast.Tuple, ast.List)) and c_.elts and all(isinstance(x, ast.Constant) for x in c_.elts):
+                items = sorted({repr(x.value) for x in c_.elts})
+                n.comparators = [ast.Tuple(elts=[ast.Constant(value=ast.literal_eval(t_)) for t_ in items], ctx=ast.Load())]
+    return norm(ast.fix_missing_locations(tree))
 
 
 def expanded_test(fi: FuncInfo, node: ast.Assert, depth: int = 6, prog: Optional[Program] = None) -> str:
@@ -1884,8 +1918,8 @@ def rule_division_sites(ctx: Ctx, rule: str = "division-by-zero") -> None:
 
     def callers_evidence(fi: FuncInfo, den: ast.AST, depth: int = 0) -> Optional[str]:
         """the evidence found in every caller of a new private helper, with the parameters replaced by the arguments"""
-        if depth > 2 or not (fi.name.startswith("_") and is_new_helper(fi.key)):
-            return None
+        if depth > 2 or not ((fi.name.startswith("_") or fi.module.base.startswith("_")) and is_new_helper(fi.key)):
+            return None  # (a function of a private module `_x.py` is as private as `_f`)
         import copy as _copy
 
         sites = []
